@@ -18,7 +18,8 @@
     names a handle or iterator that does not exist is skipped ([RSkip]) so that any
     list of operations is a history. *)
 From Coq Require Import NArith List Bool.
-From CB Require Import Trie.Radix Trie.PrefixMap.
+From CB Require Import Trie.Radix.
+From CB Require Import Trie.PrefixMap.
 Import ListNotations.
 Local Open Scope N_scope.
 
